@@ -160,6 +160,7 @@ class Profile:
         self.zero_thickness = True
         self.positive_power = False
         self.negative_fields = False     # allow field values of either sign (max field = largest magnitude)
+        self.unsorted_fields = False     # fields may be added in any order (not ascending)
         self.curved_image = False        # allow a spherical image surface
         self.__dict__.update(kw)
 
@@ -388,6 +389,8 @@ def lens_spec(draw, profile='paraxial', min_surfs=1, max_surfs=None, force_infin
         for i, fld in enumerate(fields):
             if mode == 0 or i % 2 == 0:
                 fld['y'] = -fld['y'] if fld['y'] else 0.0
+    if P.unsorted_fields and len(fields) >= 2 and draw(st.integers(0, 2)) == 0:
+        fields = list(draw(st.permutations(fields)))
     if P.curved_image and draw(st.integers(0, 2)) == 0:
         hb = max(abs(y_m) + abs(y_c), semi)
         img['shape'] = dict(R=draw(st.sampled_from([1.0, -1.0])) * draw(f(4.0, 40.0)) * hb, k=0.0)
@@ -562,6 +565,9 @@ def spec_classes(spec):
         labs.add('curved_image')
     if any(fd['y'] < 0 for fd in spec['fields']):
         labs.add('negative_field')
+    ys_ = [fd['y'] for fd in spec['fields']]
+    if ys_ != sorted(ys_):
+        labs.add('fields_not_ascending')
     ns, _ = media(spec, spec['wls'][spec['prim']])
     if ns[-1] != ns[-2]:
         labs.add('image_refracts')
